@@ -488,6 +488,93 @@ theorem stddev_nonneg (sqrt : Rat → Rat) (hs : ∀ x, 0 ≤ sqrt x) (p : Nat) 
     have : v = sqrt (popVar p (window p i xs)) * nb := (Option.some.inj (Option.some.inj h)).symm
     rw [this]; exact mul_nonneg (hs _) hnb
 
+/-- Σ (x − μ)² = Σ x² − 2 μ Σ x + n μ², for every μ -/
+theorem sum_sq_dev (w : List Rat) (mu : Rat) :
+    sum (w.map (fun x => (x - mu) * (x - mu))) = sum (w.map (fun x => x * x)) - 2 * mu * sum w + (w.length : Rat) * mu * mu := by
+  induction w with
+  | nil => simp [sum]
+  | cons x xs ih =>
+    have e1 : sum ((x :: xs).map (fun x => (x - mu) * (x - mu))) = (x - mu) * (x - mu) + sum (xs.map (fun x => (x - mu) * (x - mu))) := rfl
+    have e2 : sum ((x :: xs).map (fun x => x * x)) = x * x + sum (xs.map (fun x => x * x)) := rfl
+    have e3 : sum (x :: xs) = x + sum xs := rfl
+    rw [e1, e2, e3, ih, List.length_cons]
+    push_cast; ring
+
+/-- the shortcut `mean(x²) − mean(x)²` that var.py computes IS the population variance `mean((x − mean)²)` of the window -/
+theorem shortcut_is_popVar (p : Nat) (hp : 0 < p) (w : List Rat) (hw : w.length = p) :
+    meanOf p (w.map (fun x => x * x)) - meanOf p w * meanOf p w = popVar p w := by
+  have hp' : (p : Rat) ≠ 0 := by exact_mod_cast (Nat.pos_iff_ne_zero.mp hp)
+  unfold popVar
+  rw [sum_sq_dev w (meanOf p w), hw]
+  unfold meanOf
+  field_simp
+  ring
+
+theorem sum_sq_nonneg (w : List Rat) (mu : Rat) : 0 ≤ sum (w.map (fun x => (x - mu) * (x - mu))) := by
+  induction w with
+  | nil => simp [sum]
+  | cons x xs ih =>
+    have e1 : sum ((x :: xs).map (fun x => (x - mu) * (x - mu))) = (x - mu) * (x - mu) + sum (xs.map (fun x => (x - mu) * (x - mu))) := rfl
+    rw [e1]; nlinarith [mul_self_nonneg (x - mu)]
+
+/-- VAR: every defined value is the population variance of its trailing window times `nbdev` — and therefore never
+    negative for a non-negative multiplier (in exact arithmetic; the float shortcut can dip below zero by rounding,
+    which is what the oracle's tolerance is for) -/
+theorem var_is_population_variance (p : Nat) (hp : 0 < p) (nb : Rat) (xs : List Rat) (i : Nat) (v : Rat)
+    (h : (var p nb xs)[i]? = some (some v)) :
+    i < xs.length ∧ p ≤ i + 1 ∧ v = popVar p (window p i xs) * nb := by
+  have hi : i < xs.length := by
+    by_contra hc
+    have : (var p nb xs).length = xs.length := by simp [var, trailing, length_pmap]
+    rw [List.getElem?_eq_none (by omega)] at h; cases h
+  unfold var at h
+  rw [trailing_getElem? _ _ _ _ hi] at h
+  by_cases hpi : i + 1 < p
+  · simp [hpi] at h
+  · simp only [hpi, if_false] at h
+    have hv : v = (meanOf p ((window p i xs).map (fun x => x * x)) - meanOf p (window p i xs) * meanOf p (window p i xs)) * nb :=
+      (Option.some.inj (Option.some.inj h)).symm
+    refine ⟨hi, by omega, ?_⟩
+    rw [hv, shortcut_is_popVar p hp _ (length_window p i xs hi (by omega))]
+
+theorem var_nonneg (p : Nat) (hp : 0 < p) (nb : Rat) (hnb : 0 ≤ nb) (xs : List Rat) (i : Nat) (v : Rat)
+    (h : (var p nb xs)[i]? = some (some v)) : 0 ≤ v := by
+  obtain ⟨_, _, hv⟩ := var_is_population_variance p hp nb xs i v h
+  rw [hv]
+  apply mul_nonneg _ hnb
+  unfold popVar
+  apply div_nonneg (sum_sq_nonneg _ _)
+  exact_mod_cast Nat.zero_le p
+
+/-- BOLLINGER deviation: the numba kernel's `sqrt(max(sum_sq/p − mean², 0))` is `sqrt` of the population variance of
+    the window — the clamp at zero never acts in exact arithmetic -/
+theorem bollinger_dev_is_std (sqrt : Rat → Rat) (p : Nat) (hp : 0 < p) (xs : List Rat) (i : Nat) (v : Rat)
+    (h : (bbDev sqrt p xs)[i]? = some (some v)) :
+    i < xs.length ∧ p ≤ i + 1 ∧ v = sqrt (popVar p (window p i xs)) := by
+  have hi : i < xs.length := by
+    by_contra hc
+    have : (bbDev sqrt p xs).length = xs.length := by simp [bbDev, trailing, length_pmap]
+    rw [List.getElem?_eq_none (by omega)] at h; cases h
+  unfold bbDev at h
+  rw [trailing_getElem? _ _ _ _ hi] at h
+  by_cases hpi : i + 1 < p
+  · simp [hpi] at h
+  · simp only [hpi, if_false] at h
+    have hv := (Option.some.inj (Option.some.inj h)).symm
+    refine ⟨hi, by omega, ?_⟩
+    have hsc := shortcut_is_popVar p hp (window p i xs) (length_window p i xs hi (by omega))
+    have hnn : 0 ≤ popVar p (window p i xs) := by
+      unfold popVar
+      exact div_nonneg (sum_sq_nonneg _ _) (by exact_mod_cast Nat.zero_le p)
+    have hm : sum ((window p i xs).map (fun x => x * x)) / (p : Rat) = meanOf p ((window p i xs).map (fun x => x * x)) := rfl
+    rw [hv, hm, hsc]
+    congr 1
+    unfold maxR
+    split <;> first | rfl | linarith
+
+/-- non-vacuity: var(period 2) of 1, 3, 7 is 1 and 4 -/
+example : var 2 1 [1, 3, 7] = [none, some 1, some 4] := by decide +kernel
+
 /-! ### homogeneity: price-homogeneous averages scale linearly with the price -/
 
 /-- `sma(c·x) = c·sma(x)` -/
